@@ -241,7 +241,11 @@ class Component( ComponentLevel7 ):
       top._dsl.all_upblk_hostobj[blk]._dsl.upblk_reads[blk].add( eval(obj_name) )
 
     for blk, obj_name in provided_upblk_writes:
-      parent._dsl.upblk_writes[blk].add( eval(obj_name) )
+      written = eval(obj_name)
+      parent._dsl.upblk_writes[blk].add( written )
+      # An update_ff block of the parent registers a value into this port
+      if blk in top._dsl.all_update_ff:
+        written._dsl.needs_double_buffer = True
 
     for blk, obj_name in provided_upblk_calls:
       parent._dsl.upblk_calls[blk].add( eval(obj_name) )
